@@ -1,4 +1,5 @@
 import SslModel.Model.Conc
+import SslModel.Gen.LockShape
 /-!
 # C16 — parsed code and values are safe to share between threads
 
@@ -21,6 +22,25 @@ set_option linter.unusedSimpArgs false
 set_option linter.unusedVariables false
 namespace Ssl.C16
 open Ssl Ssl.Conc
+
+/-! ## the shape of the source the model stands on (regenerated on every run) -/
+
+/-- `assign::exec` and `assign::try_exec` each take the write guard once, never a read guard, and
+    read the old value and store the new one through that guard; and these — with the read in
+    `*cell` and the one in `Mut::string` — are all the lock acquisitions, lock-like calls and
+    `unsafe` blocks of the crate -/
+theorem lock_shape :
+    Gen.assignLockFns = [("exec", 0, 1, true), ("try_exec", 0, 1, true)] ∧
+    Gen.lockSites = [("src/instruction/bin_op/assign.rs", 0, 2, 0, 0),
+                     ("src/instruction/prefix_op.rs", 1, 0, 0, 0),
+                     ("src/variable/mut.rs", 1, 0, 0, 0)] := by decide
+
+/-- the twelve assignment operators of `BinOperation::exec` and the scalar operation each applies -/
+theorem assign_table : Gen.assignTable =
+    [("Assign", "<rhs>"), ("AssignAdd", "add"), ("AssignSubtract", "subtract"), ("AssignMultiply", "multiply"),
+     ("AssignDivide", "divide"), ("AssignModulo", "modulo"), ("AssignLShift", "lshift"), ("AssignRShift", "rshift"),
+     ("AssignBitwiseAnd", "bitwise_and"), ("AssignBitwiseOr", "bitwise_or"), ("AssignXor", "xor"), ("AssignPow", "pow")] := by
+  decide
 
 /-! ## operations that cannot fail -/
 
